@@ -199,6 +199,20 @@ impl System for Sys {
     }
 }
 
+/// delays and lateness bounds of a second and more, on a coarse timestamp grid (units that do not fit in the
+/// sub-second part of a Duration)
+fn configs_coarse() -> Vec<(Gen, Late)> {
+    let gens = [Gen::Bounded(1000), Gen::Bounded(1500), Gen::Bounded(2000), Gen::Bounded(60_000)];
+    let lates = [Late::Drop, Late::Allowed(1000), Late::Allowed(2500), Late::Side, Late::Recompute];
+    let mut v = vec![];
+    for g in gens {
+        for l in lates {
+            v.push((g, l));
+        }
+    }
+    v
+}
+
 fn configs() -> Vec<(Gen, Late)> {
     let gens = [Gen::Bounded(0), Gen::Bounded(1), Gen::Bounded(2), Gen::Bounded(5), Gen::Monotonic];
     let lates = [Late::Drop, Late::Allowed(0), Late::Allowed(1), Late::Allowed(3), Late::Side, Late::Recompute];
@@ -217,20 +231,21 @@ pub fn run(opts: &Opts) -> Vec<Report> {
     let small: Vec<u64> = vec![0, 1, 3, 5];
     let tiny: Vec<u64> = vec![0, 2, 5];
     let plan: Vec<(&str, Vec<u64>, usize)> = match opts.tier {
-        Tier::Quick => vec![("wm_len6", full.clone(), 6), ("wm_len8_small", small.clone(), 8), ("wm_len12_tiny", tiny.clone(), 11)],
-        Tier::Thorough => vec![("wm_len8", full.clone(), 8), ("wm_len10_small", small.clone(), 10), ("wm_len12_tiny", tiny.clone(), 12)],
+        Tier::Quick => vec![("wm_len6", full.clone(), 6), ("wm_len8_small", small.clone(), 8), ("wm_len12_tiny", tiny.clone(), 11), ("wm_seconds_len6", vec![0, 500, 1000, 2500, 4000, 70_000], 6)],
+        Tier::Thorough => vec![("wm_len8", full.clone(), 8), ("wm_len10_small", small.clone(), 10), ("wm_len12_tiny", tiny.clone(), 12), ("wm_seconds_len8", vec![0, 500, 1000, 2500, 4000, 70_000], 8)],
     };
     for (name, alpha, depth) in plan {
         if !crate::props::wants(opts, name) {
             continue;
         }
         let mut total = Report::new(name);
-        for (g, l) in configs() {
+        let coarse = name.starts_with("wm_seconds");
+        for (g, l) in if coarse { configs_coarse() } else { configs() } {
             let mut cfg = Config::new(name, depth);
             cfg.ctx = json!({"gen": format!("{:?}", g), "late": format!("{:?}", l), "timestamps": alpha});
             let a = alpha.clone();
             let r = explore::explore(&move || Sys::new(g, l, &a), &cfg);
-            total.bound = format!("all timestamp sequences of length <= {} over {:?} x 5 watermark generators x 6 late-data strategies", depth, alpha);
+            total.bound = if coarse { format!("all timestamp sequences of length <= {} over {:?} ms x delays 1 s, 1.5 s, 2 s, 60 s x 5 late-data strategies (lateness bounds 1 s, 2.5 s)", depth, alpha) } else { format!("all timestamp sequences of length <= {} over {:?} x 5 watermark generators x 6 late-data strategies", depth, alpha) };
             total.merge(r);
         }
         total.count("nontrivial", 0);
